@@ -119,6 +119,7 @@ def covers(coll, item, argof=None):
 
 
 class RunModel(Analysis):
+    note_quant_drop = True
     def __init__(self, prog, roles, sigs, gen_cancel=False, gen_bodyexc=False, inline_delegate=False):
         self.prog = prog
         self.roles = roles
@@ -146,6 +147,12 @@ class RunModel(Analysis):
     def registry_cover(self, x):
         """[j.<registry> for j in self.jobs if <only drops never-started or finished>]"""
         r = self.roles
+        # (a snapshot of the member set - list(self.jobs), tuple(...) - holds the members)
+        members = T.mk(('attr', T.SELF, 'jobs'))
+        for w in ('list', 'tuple', 'set', 'frozenset', 'sorted', 'BestSet'):
+            snap = T.mk(('call', w, (members,), ()))
+            if T.contains(x, snap):
+                x = T.mk(T.replace(x, snap, members))
         if x[0] == 'union' and len(x[1]) == 1 and tuple(x[1])[0][0] == 'comp':
             x = tuple(x[1])[0]
         if x[0] == 'comp':
@@ -221,6 +228,8 @@ class RunModel(Analysis):
             return private
         relevant = (sig.suspends or sig.spawns or sig.cancels or sig.yields
                     or (sig.stores & r.data_attrs))
+        if not private and func.cls is r.window_cls and sig.spawns and not func.is_async:
+            return True         # the window may be the one that makes the task of a job it is given
         if not private:
             return False
         if relevant:
@@ -242,7 +251,9 @@ class RunModel(Analysis):
         d = None
         if fterm[0] == 'mod':
             d = fterm[1]
-        elif fterm[0] == 'attr' and fterm[2] in ('create_task', 'ensure_future'):
+        elif fterm[0] == 'attr' and fterm[2] in ('create_task', 'ensure_future') \
+                and ip.resolve(fterm, fr, node)[2] != 'func':
+            # (loop.create_task(...) - not a method of the package that happens to bear that name)
             d = fterm[2]
         if d in TASK_MAKERS and args:
             return [self.spawn(ip, node, args[0], st, fr)]
@@ -369,6 +380,8 @@ class RunModel(Analysis):
     def on_iter(self, ip, ctx, st, fr):
         if ctx.kind == 'for' and not ip.in_summary:
             ctx.base = frozenset(st.facts.keys())
+            if st.a('noreq') is not None:
+                st = st.set(noreq=None)         # (what was learnt about the previous element)
         if ctx.kind != 'for' or not self._cancel_loop(ctx):
             return st
         k = ctx.key
@@ -610,6 +623,10 @@ class RunModel(Analysis):
             self.ev(ip, 'COUNTCMP', node, st, fr, term=term, val=val)
             if val:
                 st = st.set(count_ok=term)
+        if T.is_attr(term, 'required') and term[1][0] == 'elem' and val is False and not ip.in_summary:
+            # `if not job.required:` - the job has no requirement at all: remembered for the rest of the iteration
+            # (the fact itself is dropped where the branches of the `if` join)
+            st = st.set(noreq=term[1])
         if ((term[0] == 'mcall' and term[2] == 'is_critical') or T.is_attr(term, 'critical')) \
                 and not ip.in_summary and term[1] == T.mk(('var', self.roles.wrap_jobvar)):
             # criticality of a job is configuration: what a branch learnt stays true (a later test of it on the
